@@ -1,6 +1,6 @@
 #!/bin/bash
 # tools/run_seeded.sh <seeded/dir> [check ids...]: apply the seeded change to /repo, run the quick tier of
-# the named checks (default: the property in meta.json), record the verdicts, undo the change.
+# the named checks (default: the property in meta.json), record the verdicts in <dir>/result.json, undo the change.
 set -u
 D=$(cd "$1" && pwd); shift
 cd /verif
@@ -8,17 +8,25 @@ P=$(python3 -c "import json;print(json.load(open('$D/meta.json'))['property'])")
 CHECKS=${@:-$P}
 if [ -n "$(git -C /repo status --porcelain)" ]; then echo "/repo not clean"; exit 2; fi
 git -C /repo apply "$D/patch.diff" || { echo "patch does not apply"; exit 2; }
-RES="{"
+T=$(mktemp -d)
 for c in $CHECKS; do
-  out=$(./check $c quick 2>&1); rc=$?
-  v=$(echo "$out" | grep -m1 "^violation" | cut -c1-400 | python3 -c "import sys,json; print(json.dumps(sys.stdin.read().strip()))")
-  echo "$c: exit=$rc $(echo "$out" | grep -m1 '^VIOLATION')"
-  RES="$RES\"$c\": {\"exit\": $rc, \"first_violation\": $v},"
+  ./check $c quick > $T/$c.out 2>&1; echo $? > $T/$c.rc
+  echo "$c: exit=$(cat $T/$c.rc) $(grep -m1 '^VIOLATION' $T/$c.out)"
 done
 git -C /repo checkout -- . ; git -C /repo clean -fdq tests/ 2>/dev/null
-RES="${RES%,}}"
-python3 - <<PY
-import json
-r=json.loads('''$RES''')
-json.dump({"checks_run_quick_tier": r, "caught_by": [k for k,v in r.items() if v["exit"]==1]}, open("$D/result.json","w"), indent=1)
+python3 - "$D" "$T" $CHECKS <<'PY'
+import json,sys,os
+D,T=sys.argv[1],sys.argv[2]; checks=sys.argv[3:]
+old={}
+try: old=json.load(open(D+'/result.json'))
+except Exception: pass
+r=old.get('checks_run_quick_tier',{})
+for c in checks:
+    out=open(f'{T}/{c}.out').read().splitlines()
+    v=next((l for l in out if l.startswith('violation')),'')[:400]
+    r[c]={'exit':int(open(f'{T}/{c}.rc').read()),'first_violation':v}
+res={'checks_run_quick_tier':r,'caught_by':[k for k,v in r.items() if v['exit']==1]}
+if 'note' in old: res['note']=old['note']
+json.dump(res,open(D+'/result.json','w'),indent=1)
 PY
+rm -rf $T
